@@ -6,6 +6,7 @@ mod common;
 mod ext;
 mod prog;
 mod props;
+mod val;
 mod xs;
 
 use common::*;
